@@ -355,9 +355,14 @@ impl TCheck for C01 {
             knobs.push(("cluster_max_blobs", rng.range(1, 9)));
             knobs.push(("cluster_max_size", *rng.pick(&[256u64, 4096, 65536])));
         }
+        // one work in sixteen runs as on a one-CPU host and leaves the worker count to the library
+        let one_cpu = work % 16 == 5;
+        if one_cpu {
+            knobs.retain(|(k, _)| *k != "creator_workers");
+        }
         let basic = work % 4 == 3 && !dedup;
         let desc = json!({"comp": comp.name(), "contents": contents.iter().map(|c| format!("{}{}{}", c.bytes.len(), match c.hint {Hint::Yes=>"Y",Hint::No=>"N",Hint::Detect=>"D"}, match c.src {SrcKind::Cursor=>"c",SrcKind::File=>"f",SrcKind::FileRange=>"r",SrcKind::Sim=>"s",SrcKind::FilePeeked=>"p",SrcKind::FileRangeToEnd=>"e"})).collect::<Vec<_>>(),
-                          "dedup": dedup, "packaging": if basic {"BasicCreator one-file"} else {"content pack file"}, "knobs": knobs.iter().map(|(k,v)| format!("{k}={v}")).collect::<Vec<_>>()});
+                          "dedup": dedup, "one_cpu_host_no_worker_knob": one_cpu, "packaging": if basic {"BasicCreator one-file"} else {"content pack file"}, "knobs": knobs.iter().map(|(k,v)| format!("{k}={v}")).collect::<Vec<_>>()});
         if basic {
             // every other BasicCreator work hands extra content packs to finalize(), with ids that
             // are not contiguous ({1, 2, 9} / {1, 5}): pack ids are the application's choice
@@ -433,7 +438,7 @@ impl TCheck for C01 {
                 }),
                 record_events: false,
                 hard_fault: false,
-                one_cpu: false,
+                one_cpu,
                 post: None,
                 max_scheds: None,
             }
@@ -463,7 +468,7 @@ impl TCheck for C01 {
                 }),
                 record_events: false,
                 hard_fault: false,
-                one_cpu: false,
+                one_cpu,
                 post: None,
                 max_scheds: None,
             }
